@@ -220,15 +220,39 @@ def _literal_members(repo, name: str) -> list[str]:
     raise AnchorError(f"C23.R2: `{name} = Literal[...]` not found in {m.rel}")
 
 
+def _unconditional(call: ast.AST) -> bool:
+    """The call is evaluated whenever its statement is (not under a conditional expression, a short-circuit operand,
+    a comprehension body or a lambda)."""
+    cur = call
+    p = parent(cur)
+    while p is not None and not isinstance(p, ast.stmt):
+        if isinstance(p, ast.IfExp) and cur is not p.test:
+            return False
+        if isinstance(p, ast.BoolOp) and cur is not p.values[0]:
+            return False
+        if isinstance(p, ast.Lambda):
+            return False
+        if isinstance(p, (ast.ListComp, ast.SetComp, ast.DictComp, ast.GeneratorExp)) and not (p.generators and cur is p.generators[0] ):
+            return False
+        if isinstance(p, ast.comprehension) and not (cur is p.iter):
+            return False
+        cur, p = p, parent(p)
+    return True
+
+
 def _call_nodes(cfg: CFG, callee: str) -> list[Node]:
-    return [n for n in cfg.nodes if n.ast is not None and any(isinstance(x, ast.Call) and last(call_name(x)) == callee for x in exprs_in_node(n))]
+    return [n for n in cfg.nodes if n.ast is not None
+            and any(isinstance(x, ast.Call) and last(call_name(x)) == callee and _unconditional(x) for x in exprs_in_node(n))]
 
 
 def _assigned_name_of_call(fn: ast.AST, callee: str) -> tuple[ast.AST, str | None, ast.Call] | None:
     for s in walk_shallow(fn):
-        if isinstance(s, (ast.Assign, ast.AnnAssign, ast.NamedExpr)) and isinstance(s.value, ast.Call) and last(call_name(s.value)) == callee:
+        if isinstance(s, (ast.Assign, ast.AnnAssign, ast.NamedExpr)) and s.value is not None:
+            c = next((x for x in ast.walk(s.value) if isinstance(x, ast.Call) and last(call_name(x)) == callee), None)
+            if c is None:
+                continue
             tgt = s.targets[0] if isinstance(s, ast.Assign) else s.target
-            return s, (tgt.id if isinstance(tgt, ast.Name) else None), s.value
+            return s, (tgt.id if isinstance(tgt, ast.Name) else None), c
     return None
 
 
@@ -240,23 +264,18 @@ def _findings_raise(chk, m, fn, callee: str, rule_inst: str, clause: str) -> Non
     stmt, var, _c = got
     cfg = CFG(fn)
     starts = cfg.nodes_of(stmt) or cfg.node_of_containing(stmt)
-    edges = []
+    # edges on which the findings are known to be empty
+    empty_edges = []
     for t in [n for n in cfg.nodes if n.kind == "test"]:
         for lab in ("T", "F"):
-            ex = expand(t.ast.test, t.ast)
-            for variant in (t.ast.test, ex):
-                if (var, True) in atoms(variant, lab == "T"):
-                    edges.append((t, lab))
-    # on the edge where the findings are non-empty, only raises may follow
-    bad = []
-    for t, lab in edges:
-        for l2, succ in cfg.succ[t]:
-            if l2 == lab and cfg.exit in cfg.reach([succ], labels_excluded=NOEXC):
-                bad.append(t)
-    tested = bool(edges) and not cfg.must_pass(starts, [cfg.exit], [t for t, _ in edges], labels_excluded=NOEXC, include_starts=False)
-    ok = tested and not bad
-    chk.ob("C23.R2", f"{clause}: findings of `{callee}` always end in a raise", ok, m=m, node=stmt, fn=fn, instance=rule_inst,
-           reason=("a non-empty result can still reach a normal return" if bad else f"the result `{var}` is not tested on every path to the return"))
+            for variant in (t.ast.test, expand(t.ast.test, t.ast)):
+                if (var, False) in atoms(variant, lab == "T"):
+                    empty_edges.append((t, lab))
+    r = cfg.reach(starts, blocked_edges=empty_edges, labels_excluded=NOEXC, include_starts=False)
+    ok = cfg.exit not in r
+    p = cfg.path(starts[0], cfg.exit, labels_excluded=NOEXC) if (not ok and starts) else []
+    chk.ob("C23.R2", f"{clause}: a non-empty result of `{callee}` always ends in a raise", ok, m=m, node=stmt, fn=fn, instance=rule_inst,
+           reason=f"a normal return is reachable without `{var}` being known empty")
 
 
 def _resolve(expr: ast.AST, at: ast.AST, depth: int = 5) -> ast.AST:
@@ -320,7 +339,7 @@ def _r2(chk, repo, m) -> None:
     gcfg = CFG(vg)
     gparams = [a.arg for a in vg.args.posonlyargs + vg.args.args + vg.args.kwonlyargs]
     error_sites = calls_named(vg, "GraphValidationError")
-    chk.floor("C23.R2", "GraphValidationError constructions in validate_graph", len(error_sites), len(wf_members))
+    chk.floor("C23.R2", "GraphValidationError constructions in validate_graph", len(error_sites), 3)
     gated: dict[str, list[ast.AST]] = {}
     skip_param = None
     for c in error_sites:
@@ -356,7 +375,7 @@ def _r2(chk, repo, m) -> None:
         if isinstance(c, ast.Compare) and len(c.ops) == 1 and isinstance(c.ops[0], (ast.In, ast.NotIn)) and isinstance(c.left, ast.Constant) \
                 and isinstance(c.comparators[0], ast.Attribute) and c.comparators[0].attr == "skip_graph_checks":
             step_tests.append(c)
-    chk.floor("C23.R2", "per-step skip tests (`'<name>' in cfg.skip_graph_checks`)", len(step_tests), len(step_members))
+    chk.floor("C23.R2", "per-step skip tests (`'<name>' in cfg.skip_graph_checks`)", len(step_tests), 2)
     seen_step = set()
     for c in step_tests:
         k = c.left.value
@@ -558,6 +577,11 @@ def _run(m, env, hooks, fname: str, args: dict):
     fn = m.functions.get(fname)
     if fn is None:
         raise AnchorError(f"C23.R3: `{fname}` not found in {m.rel}")
+    # bind by position: parameter names are not anchors
+    params = [a.arg for a in fn.args.posonlyargs + fn.args.args]
+    if len(params) < len(args):
+        raise AnchorError(f"C23.R3: `{fname}` takes {len(params)} parameters, the rule supplies {len(args)}")
+    args = dict(zip(params, args.values()))
     try:
         return ("ok", Interp(env, hooks).call_function(fn, args))
     except Raised as r:
@@ -592,7 +616,7 @@ def _r3(chk, m, thorough: bool = False) -> None:
         per_step = list(_subsets([T[x] for x in pool], 2))
         for k in (1, 2, 3):
             for combo in itertools.product(per_step, repeat=k):
-                steps = {f"s{i}": _step(**{field: c, other: distract}) if False else _step(acc=(c if field == "accepted_events" else distract), ret=(c if field == "return_types" else distract))
+                steps = {f"s{i}": _step(acc=(c if field == "accepted_events" else distract), ret=(c if field == "return_types" else distract))
                          for i, c in enumerate(combo)}
                 found = {c.__name__ for s in steps.values() for c in getattr(s, field) if issub(c, T[base])}
                 want = ("ok", found) if len(found) == 1 else ("raise", None)
@@ -627,11 +651,14 @@ def _r3(chk, m, thorough: bool = False) -> None:
         one = [(a, r) for a in _subsets(U, 2, 1) for r in _subsets(RET, 2)]
         for a, r in one:
             yield {"s0": _step(a, r)}
-        small = [(a, r) for a in _subsets(U, 1, 1) for r in _subsets(RET, 2 if thorough else 1)]
+        U2 = U if thorough else [c for c in U if c.__name__ not in ("InputRequiredEvent", "EvB")]
+        R2 = U2 + [T["NoneType"]]
+        small = [(a, r) for a in _subsets(U2, 1, 1) for r in _subsets(R2, 2 if thorough else 1)]
         for (a0, r0), (a1, r1) in itertools.product(small, repeat=2):
             yield {"s0": _step(a0, r0), "s1": _step(a1, r1)}
 
-    bad_accept = bad_flag = None
+    bad_accept = None
+    bad_flag: dict[str, str | None] = {"produced": None, "consumed": None, "neither": None}
     n_cases = n_flag = 0
     for steps in domain():
         want = spec(steps, T["StartEvent"])
@@ -642,13 +669,17 @@ def _r3(chk, m, thorough: bool = False) -> None:
         elif want[0] == "ok":
             n_flag += 1
             if bool(got[1]) != bool(want[1]):
-                bad_flag = bad_flag or f"steps [{_show(steps)}]: HITL flag must be {want[1]} (an InputRequiredEvent subclass is produced or a HumanResponseEvent subclass is consumed) but the function returns {got[1]!r}"
+                prod = any(issub(c, T["InputRequiredEvent"]) for s_ in steps.values() for c in s_.return_types)
+                side = "produced" if prod else ("consumed" if want[1] else "neither")
+                bad_flag[side] = bad_flag[side] or f"steps [{_show(steps)}]: HITL flag must be {want[1]} but the function returns {got[1]!r}"
     runs += n_cases
     fn = m.functions["_validate_event_connectivity"]
     chk.ob("C23.R3", f"`_validate_event_connectivity` rejects exactly the step sets the statement rejects ({n_cases} step sets: 1 step with <=2 accepted and <=2 returned classes, "
            f"2 steps with 1 accepted and <={2 if thorough else 1} returned, over {[c.__name__ for c in U]})", bad_accept is None, m=m, node=fn, fn=fn, instance="connectivity:accept", reason=bad_accept or "")
-    chk.ob("C23.R3", f"the HITL flag equals `an InputRequiredEvent is produced or a HumanResponseEvent is consumed` (by subclass) on all {n_flag} accepted step sets",
-           bad_flag is None, m=m, node=fn, fn=fn, instance="connectivity:hitl-flag", reason=bad_flag or "")
+    for side, text in (("produced", "true whenever a subclass of InputRequiredEvent is produced"), ("consumed", "true whenever a subclass of HumanResponseEvent is consumed"),
+                       ("neither", "false when neither holds")):
+        chk.ob("C23.R3", f"the HITL flag is {text} (all {n_flag} accepted step sets of the universe)", bad_flag[side] is None, m=m, node=fn, fn=fn,
+               instance=f"hitl-flag:{side}", reason=bad_flag[side] or "")
 
     # ---- catch_error handler consistency
     names = ["a", "b", "h1", "h2"]
@@ -726,8 +757,8 @@ TWINS = [
          "            if event_type.__name__ == \"StartEvent\":\n                start_events_found.add(event_type)", "C23.R1"),
     Twin("benign: isinstance-free reversed tuple order", _V, "        if issubclass(ev_type, (StopEvent, InputRequiredEvent))\n    ]", "        if issubclass(ev_type, (InputRequiredEvent, StopEvent))\n    ]", None),
     # R2
-    Twin("stop-event check dropped from validate", _V, "    stop_event_class = _ensure_stop_event_class(steps, workflow_cls_name)\n\n    uses_hitl",
-         "    stop_event_class = StopEvent if False else None\n\n    uses_hitl", None),  # unknown value use of a boundary class -> exit 2 is also a failure of this twin: see below
+    Twin("stop-event check only without skips", _V, "    stop_event_class = _ensure_stop_event_class(steps, workflow_cls_name)\n\n    uses_hitl",
+         "    stop_event_class = None\n    if not skip_graph_checks:\n        stop_event_class = _ensure_stop_event_class(steps, workflow_cls_name)\n\n    uses_hitl", "C23.R2"),
     Twin("graph checks only when something is skipped", _V, "    graph_errors = validate_graph(\n", "    graph_errors = [] if not skip_graph_checks else validate_graph(\n", "C23.R2"),
     Twin("graph findings only logged", _V, "    if graph_errors:\n        detail", "    if graph_errors and len(graph_errors) > 3:\n        detail", "C23.R2"),
     Twin("handler findings ignored for a single handler", _V, "    if handler_errors:\n", "    if handler_errors and len(handlers) > 1:\n", "C23.R2"),
@@ -748,7 +779,9 @@ TWINS = [
     Twin("StepFailedEvent no longer a consumable boundary", _V, "            (InputRequiredEvent, HumanResponseEvent, StopEvent, StepFailedEvent),\n", "            (InputRequiredEvent, HumanResponseEvent, StopEvent),\n", "C23.R3"),
     Twin("only the first accepted event is checked for StopEvent", _V, "            if issubclass(event_type, StopEvent):\n                steps_accepting_stop_event.append(name)\n                break\n",
          "            if issubclass(event_type, StopEvent):\n                steps_accepting_stop_event.append(name)\n            break\n", "C23.R3"),
-    Twin("HITL flag only looks at produced events", _V, "    return (\n" + _HITL_OLD + "    )\n", "    return any(issubclass(e, InputRequiredEvent) for e in produced_events)\n", "C23.R3"),
+    Twin("any externally supplied event counts as human input", _V, "    return (\n" + _HITL_OLD + "    )\n",
+         "    return bool(consumed_events - produced_events) or any(issubclass(e, InputRequiredEvent) for e in produced_events)\n", "C23.R3"),
+    Twin("repair keeps only the produced side", _V, "    return (\n" + _HITL_OLD + "    )\n", "    return any(issubclass(e, InputRequiredEvent) for e in produced_events)\n", None),
     Twin("two wildcard handlers allowed", _V, "    if len(wildcard_handlers) > 1:", "    if len(wildcard_handlers) > 2:", "C23.R3"),
     Twin("double claim check dropped for the first handler", _V, "            if target in claim_owner:\n", "            if target in claim_owner and claim_owner[target] != \"h1\":\n", "C23.R3"),
     Twin("benign: count via != 1", _V, "    num_found = len(stop_events_found)\n    if num_found == 0:", "    num_found = len(stop_events_found)\n    if not stop_events_found:", None),
